@@ -17,7 +17,7 @@ Proof. destruct a as [[]| | |], b as [[]| | |]; cbn; congruence. Qed.
 Lemma obs_cells_complete : map fst obs_edges = all_cells.
 Proof. vm_compute. reflexivity. Qed.
 
-Lemma all_cells_count : length all_cells = 340.
+Lemma all_cells_count : length all_cells = 360.
 Proof. vm_compute. reflexivity. Qed.
 
 Lemma obs_edges_eq_doc_b :
